@@ -216,6 +216,21 @@ func defects() []*defect {
 			r.Header = append(r.Header, [2]string{"X-Amz-Meta-C02probe", "value-that-was-signed"})
 			chain(r, func(b *s3c.Built) { b.Header.Set("X-Amz-Meta-C02probe", "value-that-was-sent") })
 		}),
+		// a second line of a header that IS covered by the signature, added after signing: every line of a signed
+		// header belongs to the canonical request, so the proof no longer matches (a verifier that looks only at the
+		// first line while handlers use the last one would let the unsigned value through)
+		hdr("signed-header-line-appended", true, func(r *s3c.Req, k *kit) {
+			r.Header = append(r.Header, [2]string{"X-Amz-Meta-C02probe", "value-that-was-signed"})
+			chain(r, func(b *s3c.Built) {
+				b.Header = append(b.Header, [2]string{"X-Amz-Meta-C02probe", "second-line-that-was-never-signed"})
+			})
+		}),
+		hdr("signed-header-line-prepended", false, func(r *s3c.Req, k *kit) {
+			r.Header = append(r.Header, [2]string{"X-Amz-Meta-C02probe", "value-that-was-signed"})
+			chain(r, func(b *s3c.Built) {
+				b.Header = append(s3c.H{{"X-Amz-Meta-C02probe", "first-line-that-was-never-signed"}}, b.Header...)
+			})
+		}),
 		hdr("query-added", false, func(r *s3c.Req, k *kit) {
 			chain(r, func(b *s3c.Built) { b.Target = addParam(b.Target, "c02extra=1") })
 		}),
